@@ -144,11 +144,86 @@ def check_c01(chk, rng):
     verdicts = validate(cases, chk, "c01")
     judge("C01", cases, verdicts, chk, ("C01.",), stream_is_mine=False)
     check_cyclic_wiring(chk, rng)
+    check_dynamic_children(chk, rng)
     for c in cases[:2]:
         chk.sample({"scenario": c.scn.splitlines(), "trace_events": len(c.events)})
     chk.coverage["rule"] = ("random DAG programs (fan-in, fan-out, diamonds) presented flat, with a sub-range nested / inlined / doubly "
                             "nested, and in permuted statement orders; plus cyclic wirings that must be rejected at build time; "
                             "distinct = distinct scenario text")
+
+
+def check_dynamic_children(chk, rng):
+    """C01 for dynamically created child graphs: mesh_ instances that pause in the middle of their cycle and are resumed,
+    map_ children created / removed by key, switch_ branches - validated by spec/OrderTrace.tla."""
+    scns = []
+    n = 60 if chk.tier == "quick" else 800
+    for k in range(n):
+        nk = rng.randint(2, 5)
+        horizon = rng.choice([4, 5, 6])
+        vals, links = {}, {}
+        for t in range(1, horizon + 1):
+            v = ["%d=%d" % (key, rng.choice([1, 2, 3, 10])) for key in range(1, nk + 1) if rng.random() < (0.8 if t == 1 else 0.35)]
+            if v:
+                vals[t] = v
+            # links only point to lower keys: no dependency cycle between instances
+            ln = ["%d=%d" % (key, rng.randint(1, key - 1)) for key in range(2, nk + 1) if rng.random() < (0.6 if t == 1 else 0.2)]
+            if ln:
+                links[t] = ln
+        if not vals:
+            vals[1] = ["1=1"]
+        pre = rng.choice([["n 10 count in=a0"], ["n 10 acc in=a0"], ["n 9 add k=1 in=a0", "n 10 acc in=9"], ["n 9 pass in=a0", "n 10 count in=9"]])
+        lines = ["scn mesh%d" % k, "opt start=1 end=%d" % (horizon + 1), "graph g0 nin=2"] + pre + [
+            "n 11 meshref in=a1", "n 12 dflt0 in=11", "n 13 sum2 in=10,12", "out 13", "endgraph", "graph root",
+            "n 1 dsrc script=" + ";".join("%d:%s" % (t, ",".join(v)) for t, v in sorted(vals.items())),
+            "n 2 dsrc script=" + (";".join("%d:%s" % (t, ",".join(v)) for t, v in sorted(links.items())) or "99:1=1"),
+            "n 3 mesh g=0 in=1,2", "n 4 drec in=3", "endgraph", "run"]
+        scns.append("\n".join(lines))
+    for k in range(n // 2):
+        keys = [1, 2, 3]
+        horizon = 6
+        ops = {}
+        present = set()
+        for t in range(1, horizon + 1):
+            o = []
+            for key in keys:
+                r = rng.random()
+                if key in present and r < 0.25:
+                    o.append("-%d" % key)
+                    present.discard(key)
+                elif r < 0.6:
+                    o.append("%d=%d" % (key, rng.randint(1, 5)))
+                    present.add(key)
+            if o:
+                ops[t] = o
+        if not ops:
+            continue
+        lines = ["scn mapo%d" % k, "opt start=1 end=%d" % (horizon + 1), "graph g0 nin=1", "n 10 acc in=a0", "n 11 delay d=1 in=10", "out 11", "endgraph",
+                 "graph root", "n 1 dsrc script=" + ";".join("%d:%s" % (t, ",".join(v)) for t, v in sorted(ops.items())),
+                 "n 3 map g=0 in=1", "n 4 drec in=3", "n 5 reduce in=3 comb=add", "n 6 rrec in=5,3", "endgraph", "run"]
+        scns.append("\n".join(lines))
+    traces = hg.run_driver("engine", scns)
+    items = []
+    for k, (scn, tr) in enumerate(zip(scns, traces)):
+        chk.count({"scn": scn})
+        if isinstance(tr, dict):
+            chk.violation("dyn:crash", "driver crashed/hung on a dynamic-children scenario: %s" % json.dumps(tr)[:300], scn)
+            continue
+        bad = [e for e in tr if e["e"] in ("wirefail", "harnessfail")]
+        ret = [e for e in tr if e["e"] == "ret"]
+        if bad or not ret or ret[0]["ok"] != 1:
+            chk.violation("dyn:run", "dynamic-children scenario did not run: %s" % (bad or ret), scn)
+            continue
+        items.append({"id": k, "prog": {}, "ev": tr})
+    verdicts, st, trn = tracecheck.validate("OrderTrace", "OrderTrace.cfg", items, "c01dyn",
+                                            keep={"gstart", "gstopped", "nstart", "cycle", "eval", "ret"})
+    chk.coverage["states"] += st
+    chk.coverage["transitions"] += trn
+    chk.coverage["traces_validated_against_impl"] += len(items)
+    for it in items:
+        acc, why = verdicts[it["id"]]
+        if why:
+            chk.violation("dyn:%s" % why, "OrderTrace.tla rejects the trace at event %d: %s" % (acc + 1, why), "# %s\n%s\n" % (why, scns[it["id"]]))
+    chk.notes["dynamic_children_scenarios"] = len(scns)
 
 
 def check_cyclic_wiring(chk, rng):
